@@ -358,6 +358,72 @@ def gen_circuit(rng, max_modes, variant=None):
         return c
 
 
+PS_END = ["p", "z", "rz", "u", "y"]        # emitted list ends with a phaseshifter on rail 1
+PS_BEGIN = ["p", "z", "rz", "u", "h", "x"]  # emitted list begins with a phaseshifter (rail 1; rz: rail 0)
+PATTERNS = ["N", "F", "S", "B", "D"]        # which of two adjacent gates is conditioned: neither, first, second,
+                                            # both in one block, both in blocks with different conditions
+
+
+def generic_gate(rng, g, q):
+    ts = []
+    for _ in range(NPAR[g]):
+        t = rng.choice([x for x in TS if x not in (0, 1, -1)])
+        ts.append(t)
+    return mk_gate(g, q, ts)
+
+
+def pair_circuit(rng, g1, g2, pattern):
+    """Two adjacent gates g1, g2 on the same qubit, with the conditioning pattern, between a generic
+    preparation and a generic interfering rotation; the controlling qubits are measured in a
+    superposition so that both branches of every condition are taken."""
+    n = 3 if pattern == "D" else 2
+    tq = 1
+    ops = [{"g": "h", "q": [0]}, {"g": "measure", "q": [0], "c": 0}]
+    if pattern == "D":
+        ops += [generic_gate(rng, "ry", 2), {"g": "measure", "q": [2], "c": 1}]
+    ops.append(generic_gate(rng, "u", tq))
+    a, b = generic_gate(rng, g1, tq), generic_gate(rng, g2, tq)
+    v0, v1 = rng.randint(0, 1), rng.randint(0, 1)
+    if pattern == "N":
+        ops += [a, b]
+    elif pattern == "F":
+        ops += [{"g": "if", "c": 0, "v": v0, "body": [a]}, b]
+    elif pattern == "S":
+        ops += [a, {"g": "if", "c": 0, "v": v0, "body": [b]}]
+    elif pattern == "B":
+        ops += [{"g": "if", "c": 0, "v": v0, "body": [a, b]}]
+    else:
+        ops += [{"g": "if", "c": 0, "v": v0, "body": [a]}, {"g": "if", "c": 1, "v": v1, "body": [b]}]
+    ops.append(generic_gate(rng, rng.choice(["ry", "rx", "h"]), tq))
+    if rng.random() < 0.5:
+        ops.append({"g": "measure", "q": [tq], "c": 2 if pattern == "D" else 1})
+    return finalize({"n": n, "ncl": n, "ops": ops, "kind": "pair:%s,%s,%s" % (g1, g2, pattern)})
+
+
+def all_pairs():
+    return [(g1, g2, pt) for g1 in ONEQ for g2 in ONEQ for pt in PATTERNS]
+
+
+def boundary_pairs():
+    return [(g1, g2, pt) for g1 in PS_END for g2 in PS_BEGIN for pt in ("F", "S")]
+
+
+def ent_pair_circuit(rng, n, a, b, gate):
+    """cz/cx on the ordered pair (a, b) of an n-qubit register, between generic single-qubit gates"""
+    ops = [generic_gate(rng, "u", q) for q in range(n)]
+    ops.append({"g": gate, "q": [a, b]})
+    ops += [generic_gate(rng, rng.choice(["ry", "rx"]), q) for q in range(n)]
+    return finalize({"n": n, "ncl": n, "ops": ops, "kind": "ent:%s(%d,%d)/%d" % (gate, a, b, n)})
+
+
+def ordered_ent_pairs(full):
+    out = [(2, a, b, g) for a, b in ((0, 1), (1, 0)) for g in ("cx", "cz")]
+    out += [(3, a, b, "cx") for a in range(3) for b in range(3) if a != b]
+    if full:
+        out += [(3, a, b, "cz") for a in range(3) for b in range(3) if a != b]
+    return out
+
+
 def finalize(c):
     """cutoff: photons+1, one more if a gate follows a measurement (piquasso lowers the cutoff by the
     measured photons and refuses passive gates below cutoff 3: finding 9 of DESIGN section 5, C13/C01)."""
@@ -578,6 +644,16 @@ def classify(c):
     ms = [o["c"] for o in c["ops"] if o["g"] == "measure"]
     if ms != list(range(len(ms))):
         return "C19:condition:reads-outcome-position-of-clbit-index"
+    kind = c.get("kind", "")
+    if kind.startswith("pair:"):
+        pt = kind.rsplit(",", 1)[1]
+        return "C19:adjacent-gates:" + {"N": "unconditioned", "F": "first-conditioned", "S": "second-conditioned",
+                                        "B": "one-block", "D": "two-blocks"}[pt]
+    if kind.startswith("ent:"):
+        ent = [o for o in c["ops"] if o["g"] in ("cz", "cx")]
+        if ent:
+            o = ent[0]
+            return "C19:entangling:%s:first-qubit-%s-second" % (o["g"], "above" if o["q"][0] > o["q"][1] else "below")
     return "C19:statistics:" + "+".join(sorted(features(c)))
 
 
@@ -644,30 +720,76 @@ def load_corpus():
     return out
 
 
-def run_impl_parallel(circuits, jobs=3):
-    """run the circuits in `jobs` interpreter processes (round robin), results in input order"""
-    from concurrent.futures import ThreadPoolExecutor
+class ImplJobs:
+    """The circuits are run in `jobs` interpreter processes (round robin: the expensive circuits are
+    spread), started in the background so that the Coq build can proceed meanwhile."""
 
-    if len(circuits) < 2 * jobs:
-        return run_impl("c19_impl.py", {"circuits": circuits, "reference": True}, timeout=6000)["runs"]
-    parts = [list(range(j, len(circuits), jobs)) for j in range(jobs)]
-    with ThreadPoolExecutor(max_workers=jobs) as ex:
-        futs = [ex.submit(run_impl, "c19_impl.py", {"circuits": [circuits[i] for i in part], "reference": True}, 6000)
-                for part in parts]
-        outs = [f.result()["runs"] for f in futs]
-    res = [None] * len(circuits)
-    for part, o in zip(parts, outs):
-        for i, r in zip(part, o):
-            res[i] = r
-    return res
+    def __init__(self, circuits, jobs):
+        from concurrent.futures import ThreadPoolExecutor
+
+        self.circuits = circuits
+        jobs = max(1, min(jobs, len(circuits)))
+        self.parts = [list(range(j, len(circuits), jobs)) for j in range(jobs)]
+        self.ex = ThreadPoolExecutor(max_workers=jobs)
+        self.futs = [self.ex.submit(run_impl, "c19_impl.py",
+                                    {"circuits": [circuits[i] for i in part], "reference": True}, 6000)
+                     for part in self.parts]
+
+    def results(self):
+        res = [None] * len(self.circuits)
+        for part, f in zip(self.parts, self.futs):
+            for i, r in zip(part, f.result()["runs"]):
+                res[i] = r
+        self.ex.shutdown()
+        return res
+
+
+def run_impl_parallel(circuits, jobs=3):
+    return ImplJobs(circuits, jobs).results()
 
 
 # =========================================================================== the check
 def run(chk: Check):
     T = chk.thorough
+    import time as _time
+    _marks = [("start", _time.time())]
+
+    def _tick(name):
+        _marks.append((name, _time.time()))
     corr_broken = []
+    # ---- inputs (independent of the translator): started first, run in the background
+    n_dom = 300 if T else 36
+    n_var = 30 if T else 5
+
+    def mm():
+        # total modes (2 per qubit + 2 per entangling gate): the simulator's Create builds dense operators
+        r = chk.rng.random()
+        if T:
+            return 6 if r < 0.5 else (8 if r < 0.93 else 10)
+        return 6 if r < 0.8 else 8
+
+    corpus = load_corpus()
+    circuits = list(corpus)
+    circuits += [gen_circuit(chk.rng, mm()) for _ in range(n_dom)]
+    for v in ("else", "multi", "clorder"):
+        circuits += [gen_circuit(chk.rng, 6, v) for _ in range(n_var)]
+    # systematic: every ordered qubit pair under cx (and cz), every adjacent gate pair on one qubit
+    # with each conditioning pattern (quick: the phaseshifter-boundary pairs and a sample of the rest)
+    ent_specs = ordered_ent_pairs(T)
+    circuits += [ent_pair_circuit(chk.rng, *sp) for sp in ent_specs]
+    pair_specs = all_pairs() if T else boundary_pairs() + chk.rng.sample(
+        [x for x in all_pairs() if x not in set(boundary_pairs())], 30)
+    circuits += [pair_circuit(chk.rng, *sp) for sp in pair_specs]
+    raws = [[[1, 0, 0, 1], [0, 1, 0, 1]], [[1, 0], [0, 1]], [[1, 1]], [[1, 0, 1]], [[]], [[], [1, 0]], [[2, 0]], [[0, 0, 1, 0]],
+            [[0, 1, 1, 0, 0, 1]], [[1]], []]
+    for _ in range(40 if T else 12):
+        raws.append([[chk.rng.choice([0, 1, 1, 0, 2]) for _ in range(chk.rng.choice([0, 1, 2, 2, 4, 4, 6, 3]))]
+                     for _ in range(chk.rng.randint(1, 3))])
+    jobs = ImplJobs(circuits, 5 if T else 4)
+
     # ---- translator (fail closed)
-    sent = run_impl("c19_impl.py", {"sentinel": True})
+    first = run_impl("c19_impl.py", {"sentinel": True, "postproc": raws})
+    sent = first
     trans_err = None
     try:
         text = generate_encodegen(sent)
@@ -687,36 +809,28 @@ def run(chk: Check):
     if trans_err:
         chk.proof_broken = ["translator failed closed: " + trans_err] + list(chk.proof_broken)
         chk.notes.append("EncodeGen.v could not be regenerated: %s (the theorems were NOT re-proved against this tree)" % trans_err)
+    _tick("translator+proofs")
     model_ok = chk.proof.get("ok") or os.path.exists(os.path.join(COQ, "theories", "C19", "RunInst.vo"))
+    res = jobs.results()
 
-    # ---- inputs
-    n_dom = 400 if T else 60
-    n_var = 30 if T else 5
-
-    def mm():
-        # total modes (2 per qubit + 2 per entangling gate): the simulator's Create builds dense operators
-        r = chk.rng.random()
-        if T:
-            return 6 if r < 0.5 else (8 if r < 0.93 else 10)
-        return 6 if r < 0.8 else 8
-
-    corpus = load_corpus()
-    circuits = list(corpus)
-    circuits += [gen_circuit(chk.rng, mm()) for _ in range(n_dom)]
-    for v in ("else", "multi", "clorder"):
-        circuits += [gen_circuit(chk.rng, 6, v) for _ in range(n_var)]
-    res = run_impl_parallel(circuits, jobs=4 if T else 3)
-
+    _tick("implementation runs")
     # ---- correspondence: model (Coq, exact) vs implementation
     dom = [(c, r) for c, r in zip(circuits, res) if in_domain(c)]
-    chunk = 25
+    chunk = 35
     bodies = [cases_body([c for c, _ in dom[i:i + chunk]]) for i in range(0, len(dom), chunk)]
+    post_body = "Definition raws : list (list (list nat)) := [%s].\nEval vm_compute in map samples_out raws.\n" % (
+        "; ".join("[" + "; ".join("[" + "; ".join(str(x) for x in t) + "]" for t in raw) + "]" for raw in raws))
+    if bodies:
+        bodies[-1] += post_body
+    post_model = None
     tables, agrees, encs = [], [], []
     if model_ok:
         try:
-            outs = coq_eval_parallel("c19_cases", bodies, jobs=4)
-            for o in outs:
+            outs = coq_eval_parallel("c19_cases", bodies, jobs=5)
+            for j, o in enumerate(outs):
                 ev = parse_evals(o)
+                if j == len(outs) - 1 and len(ev) == 4:
+                    post_model = ev[3]
                 tables += ev[0]
                 agrees += ev[1]
                 encs += ev[2]
@@ -724,6 +838,7 @@ def run(chk: Check):
             corr_broken.append("model could not be evaluated: %s" % str(e)[-400:])
     else:
         corr_broken.append("model does not compile; correspondence not evaluated")
+    _tick("model evaluation (coqc)")
     n_struct = n_sem = n_sem_ent = 0
     maxdev = {0: 0.0}
     seen = set()
@@ -766,26 +881,19 @@ def run(chk: Check):
                    n_sem_ent, {k: float("%.3g" % v) for k, v in sorted(maxdev.items())}))
 
     # get_bosonic_qubit_samples
-    raws = [[[1, 0, 0, 1], [0, 1, 0, 1]], [[1, 0], [0, 1]], [[1, 1]], [[1, 0, 1]], [[]], [[], [1, 0]], [[2, 0]], [[0, 0, 1, 0]],
-            [[0, 1, 1, 0, 0, 1]], [[1]], []]
-    for _ in range(40 if T else 12):
-        raws.append([[chk.rng.choice([0, 1, 1, 0, 2]) for _ in range(chk.rng.choice([0, 1, 2, 2, 4, 4, 6, 3]))]
-                     for _ in range(chk.rng.randint(1, 3))])
-    pp = run_impl("c19_impl.py", {"postproc": raws})["postproc"]
+    pp = first["postproc"]
     if model_ok:
-        body = CASES_IMPORTS + "Definition raws : list (list (list nat)) := [%s].\nEval vm_compute in map samples_out raws.\n" % (
-            "; ".join("[" + "; ".join("[" + "; ".join(str(x) for x in t) + "]" for t in raw) + "]" for raw in raws))
-        try:
-            mod = parse_evals(coq_eval_parallel("c19_post", [body], jobs=1)[0])[0]
-            for raw, m, p in zip(raws, mod, pp):
+        if post_model is None:
+            corr_broken.append("post-processing model could not be evaluated")
+        else:
+            for raw, m, p in zip(raws, post_model, pp):
                 exp = None if m == [[-1]] else m
                 got = p.get("ok")
                 if exp != got:
                     corr_broken.append("get_bosonic_qubit_samples(%r): impl %r model %r" % (raw, p, m))
-        except Exception as e:  # noqa
-            corr_broken.append("post-processing model could not be evaluated: %s" % str(e)[-300:])
     chk.stream("get_bosonic_qubit_samples vs model", len(raws), sum(1 for p in pp if "ok" in p), samples=[{"raw": raws[0], "impl": pp[0]}])
 
+    _tick("post-processing stream")
     # ---- search: implementation vs Qiskit (independent of the model)
     failing = {}
     n_search = 0
@@ -796,12 +904,34 @@ def run(chk: Check):
         why = impl_fails(c, r)
         if why:
             failing.setdefault(classify(c), []).append((c, why))
+    if (corr_broken or getattr(chk, "proof_broken", [])) and not failing and not T:
+        # an obligation or the correspondence broke and no circuit of this tier fails: widen the
+        # search to the systematic sets of the thorough tier (DESIGN.md section 3, step 4)
+        done = {c.get("kind") for c in circuits}
+        extra = [pair_circuit(chk.rng, *sp) for sp in all_pairs()]
+        extra += [ent_pair_circuit(chk.rng, *sp) for sp in ordered_ent_pairs(True)]
+        extra = [c for c in extra if c["kind"] not in done]
+        extra += [gen_circuit(chk.rng, 8) for _ in range(60)]
+        eres = run_impl_parallel(extra, jobs=5)
+        for c, r in zip(extra, eres):
+            if str(r.get("error", "")).startswith("qiskit"):
+                continue
+            n_search += 1
+            why = impl_fails(c, r)
+            if why:
+                failing.setdefault(classify(c), []).append((c, why))
+        circuits = circuits + extra
+        res = res + eres
+        chk.notes.append("search widened to %d further circuits because an obligation or the correspondence broke" % len(extra))
     open_known = {k.get("key") for k in chk.known if k.get("status") == "open"}
     for key, lst in sorted(failing.items()):
         # prefer silently wrong statistics to a raised error, then the shortest circuit
         c, why = min(lst, key=lambda cw: (not cw[1].startswith("max |p_impl"), len(json.dumps(cw[0]["ops"]))))
         small = c if key in open_known else shrink(c, silent=why.startswith("max |p_impl"))
-        rr = run_impl("c19_impl.py", {"circuits": [small], "reference": True})["runs"][0]
+        if small is c:
+            rr = res[[id(x) for x in circuits].index(id(c))]
+        else:
+            rr = run_impl("c19_impl.py", {"circuits": [small], "reference": True})["runs"][0]
         why2 = impl_fails(small, rr) or why
         obs = None
         try:
@@ -820,6 +950,8 @@ def run(chk: Check):
         if ok is not True:
             chk.violation("C19:unsupported-gate-not-refused:%s" % nm, "gate name %r is not refused" % nm, {"name": nm, "result": ok})
 
+    _tick("search + shrinking")
+    chk.notes.append("stage seconds: " + ", ".join("%s %.0f" % (b[0], b[1] - a[1]) for a, b in zip(_marks, _marks[1:])))
     chk.assumptions += [
         "first-quantised semantics: a passive gate acts on the photon of a rail pair by its gates.py block (psi -> U psi); tied by the simulation stream, proved nowhere (C01)",
         "Qiskit's circuit data model (instruction.name, params, operation.condition, Clbit._index) is used as is; the harness feeds real Qiskit 2.x objects",
